@@ -480,7 +480,16 @@ def run(ctx, pid, n=None, tables=None):
         if msg:
             ctx.fail("C", op.name, case, msg, finding=findings.classify(pid, op.name, case, msg))
     ctx.cov["extra_ops"] = {"operations": len(table), "pairs": len(pairs), "cases": done}
+    ctx.cov["extra_ops_rule"] = RULE
+    if isinstance(ctx.cov.get("rule"), str) and RULE not in ctx.cov["rule"]:
+        ctx.cov["rule"] += "; " + RULE
     return done
+
+
+RULE = ("extra_ops (families C:x:<operation>:<format>): the operation table of harness/extra_ops.py for this property — every (operation, format) pair twice "
+        "round-robin, then random pairs; operands over 11 dtypes, fills zero/nonzero/nan/inf/-0.0 where the property admits them, 0-d and zero-extent shapes, "
+        "COO/GCXS/DOK built through several constructors; compared with NumPy on shape, dtype, fill value, values and canonical form; non-trivial = an operand "
+        "has at least one element")
 
 
 QUICK: dict = {}
@@ -1018,6 +1027,16 @@ def _g_elem(arity, dtypes=DT_ALL, second=("sparse", "sparse", "scalar", "dense",
     return g
 
 
+def _no_zero_extent(g):
+    def h(rng):
+        for _ in range(20):
+            spec = g(rng)
+            if spec and all(0 not in np.shape(o.get("dense", o.get("raw"))) for o in spec["operands"]):
+                return spec
+        return None
+    return h
+
+
 def _elem(name, f, arity, gen_=None, formats=ALL, fill="func", **kw):
     """f(N-or-S agnostic): called as f(*operands) on both sides"""
     return Op(name, (lambda S, xs, a, f=f: f(*xs)), (lambda N, ds, a, f=f: f(*ds)), gen_ or _g_elem(arity), formats, fill=fill, note="elemwise", **kw)
@@ -1216,7 +1235,10 @@ def _c01_table():
         # (5) the operator / ufuncs with two results: the pair, or a clean refusal for the ufuncs
         Op("divmod(x, y)", lambda S, xs, a: divmod(xs[0], xs[1]), lambda N, ds, a: divmod(ds[0], ds[1]), _g_elem(2, dtypes=["int8", "uint8", "int64", "float32", "float64"],
                                                                                                                   second=("sparse", "scalar", "pyscalar"), nonfinite=False), ALL, fill="none"),
-        Op("np.modf(x)", lambda S, xs, a: np.modf(xs[0]), lambda N, ds, a: N.modf(ds[0]), _g_elem(1, dtypes=DT_FLOAT, nonfinite=False), ALL, fill="none", refusal_ok=("type", "value")),
+        # (no zero-extent operands here: NumPy formats the operands into its TypeError message, and str() of an array without columns is the listed
+        #  finding F-c18-str-no-columns-assertion)
+        Op("np.modf(x)", lambda S, xs, a: np.modf(xs[0]), lambda N, ds, a: N.modf(ds[0]), _no_zero_extent(_g_elem(1, dtypes=DT_FLOAT, nonfinite=False)), ALL, fill="none",
+           refusal_ok=("type", "value")),
     ]
     return t
 
@@ -1867,3 +1889,87 @@ if __name__ == "__main__":
     run(_c, _pid)
     with open(_out, "w") as f:
         json.dump({"cases": _c.cases, "fails": _c.fails, "cov": _c.cov}, f, default=str)
+
+
+# ===============================================================================================================
+# C12 — DOK under sequences of assignments: element dtypes (bool, int8, uint8, int16, uint32, float16, complex) and fills
+#       (nan, inf, -0.0, nonzero) beyond those of C12's model-checked histories; integer / slice (any step) keys with scalar
+#       and broadcastable array values.  After the history: todense, to_coo, nnz == number of non-fill elements.
+# ===============================================================================================================
+
+def _g_history(rng):
+    o = operand(rng, min_rank=1, max_rank=3, nonfinite=False, max_size=60)
+    d, f = o["dense"], o["fill"]
+    work = d.copy()
+    hist = []
+    for _ in range(int(rng.integers(1, 7))):
+        n_axes = int(rng.integers(1, d.ndim + 1))
+        key = []
+        for ax in range(n_axes):
+            dim = d.shape[ax]
+            if rng.random() < 0.45 and dim:
+                key.append(int(rng.integers(-dim, dim)))
+            else:
+                key.append(gen.rand_slice(rng, dim))
+        key = tuple(key)
+        tgt = work[key]
+        r = rng.random()
+        if r < 0.3:
+            val = f  # assigning the fill value removes entries
+        elif r < 0.6 or np.ndim(tgt) == 0:
+            val = dense_values(rng, (), d.dtype, f, density=0.0 if rng.random() < 0.2 else 1.0)[0][()]
+        else:
+            shp = np.shape(tgt)
+            vs = shp if rng.random() < 0.6 else tuple(1 if (e != 1 and rng.random() < 0.5) else e for e in shp)[int(rng.integers(0, len(shp))):]
+            val = dense_values(rng, vs, d.dtype, f, density=float(rng.choice([0.3, 1.0])))[0]
+        try:
+            work[key] = val
+        except Exception:  # noqa: BLE001  (not an assignment NumPy accepts: outside the history grammar)
+            continue
+        hist.append((key, val))
+    return {"operands": [o], "args": {"history": [[jsonable(k), jsonable(v)] for k, v in hist], "_hist": hist}}
+
+
+def _sp_history(S, xs, a):
+    import copy
+
+    x = copy.deepcopy(xs[0])
+    for key, val in a["_hist"]:
+        x[key] = val
+    return x
+
+
+def _ref_history(N, ds, a):
+    w = ds[0].copy()
+    for key, val in a["_hist"]:
+        w[key] = val
+    return w
+
+
+def _custom_history(got, ref, xs, ds, a):
+    import sparse
+
+    if not isinstance(got, sparse.DOK):
+        return f"result is {type(got).__name__}"
+    p = impl.canonical_problem(got)
+    if p:
+        return f"DOK not consistent: {p}"
+    t = got.todense()
+    if t.shape != ref.shape or t.dtype != ref.dtype or not oracle.same_values(t, ref):
+        return f"todense differs after the history: {t.tolist()!r:.160} numpy {ref.tolist()!r:.160} (dtype {t.dtype}/{ref.dtype})"
+    c = got.to_coo().todense()
+    if not oracle.same_values(c, ref):
+        return f"to_coo differs after the history: {c.tolist()!r:.160} numpy {ref.tolist()!r:.160}"
+    nonfill = int((~_is_fill(ref, got.fill_value)).sum())
+    # (the operand itself may have been built with explicitly stored fill values only through DOK's own constructors, which drop them)
+    if got.nnz != nonfill:
+        return f"nnz {got.nnz} but {nonfill} elements differ from the fill value {got.fill_value!r}"
+    if not oracle.same_values(np.asarray(got.fill_value), np.asarray(xs[0].fill_value)):
+        return f"fill value changed to {got.fill_value!r}"
+    return None
+
+
+C12 = [Op("assignment history", _sp_history, _ref_history, _g_history, ("dok",), custom=_custom_history, note="dok-history")]
+TABLES["C12"] = C12
+QUICK["C12"] = 500
+THOROUGH["C12"] = 8000
